@@ -7,7 +7,7 @@ CONSTANTS
   NMac = 1
   NKw = 1
   NPat = 1
-  DelSet = {"edge", "space", "punct", "word", "same"}
+  DelSet = {"edge", "space", "punct", "colon", "dash", "dotnum", "alpha", "digit"}
   MaxTok = 1
   MaxLines = 1
   MaxSpecs = 1
@@ -21,6 +21,8 @@ CONSTANTS
   SysDomSet = {TRUE}
   NoRedSet = {FALSE}
   NoObfSets = {{}}
+  WidthSet = {FALSE}
+  AllowSet = {0}
   FamSet = {"plain"}
   AllowBlank = FALSE
   Runs = 1
